@@ -406,6 +406,64 @@ fn unquote_case(rng: &mut Rng, em: &mut Emitter) {
     }
 }
 
+// ---------------------------------------------------------------- the -L argument
+
+fn real_range(arg: &str) -> Value {
+    let a = arg.to_string();
+    match catch(move || verif_hooks::parse_line_range(&a)) {
+        Err(_) => json!({"err": "panic"}),
+        Ok(None) => json!({"range": Value::Null}),
+        Ok(Some((s, e))) => json!({"range": [s, e]}),
+    }
+}
+
+/// git's reading of the numeric forms (git-blame(1), line-range.c): first line and last line, `None` = end of file
+fn range_case(rng: &mut Rng, em: &mut Emitter) {
+    let big = |rng: &mut Rng| -> u64 {
+        match rng.below(10) {
+            0 => rng.pick(&[0u64, 1, 4294967294, 4294967295]),
+            1 => rng.range(4294967000, 4294967295),
+            _ => rng.range(1, 400),
+        }
+    };
+    if rng.chance(2, 3) {
+        let a = big(rng);
+        let b = big(rng);
+        let open = verif_hooks::LINE_RANGE_OPEN_END as u64;
+        let form = rng.below(6);
+        let (arg, want, tag): (String, Option<(u64, u64)>, &str) = match form {
+            0 => (format!("{a},{b}"), Some((a, b)), "a,b"),
+            1 => (format!("{a},+{b}"), if b == 0 || a + b - 1 > 4294967295 { None } else { Some((a, a + b - 1)) }, "a,+n"),
+            2 => (format!("{a},-{b}"), if b == 0 { None } else { Some(((a + 1).saturating_sub(b).max(1), a)) }, "a,-n"),
+            3 => (format!("{a},"), Some((a, open)), "a,"),
+            4 => (format!(",{b}"), Some((1, b)), ",b"),
+            _ => (format!("{a}"), Some((a, open)), "a"),
+        };
+        let imp = real_range(&arg);
+        let got = imp.get("range").and_then(|r| r.as_array()).map(|r| (r[0].as_u64().unwrap_or(0), r[1].as_u64().unwrap_or(0)));
+        let ok = imp.get("err").is_none() && got == want;
+        em.emit(
+            "c09",
+            json!({"op": "bo_range", "arg": arg}),
+            imp.clone(),
+            vec![oracle("range_reads_like_git", ok, json!({"arg": arg, "git": want.map(|w| vec![w.0, w.1]), "got": imp}), "range:numeric-form-differs-from-git")],
+            vec!["range-structured".into(), format!("range-form={tag}")],
+        );
+    } else {
+        let toks = ["", ",", "+", "-", "0", "5", "12", "4294967295", "4294967296", "99999999999", "/re/", " ", "x", "١"];
+        let arg: String = (0..rng.range(0, 5)).map(|_| rng.pick(&toks)).collect::<Vec<_>>().join("");
+        let imp = real_range(&arg);
+        let ok = imp.get("err").is_none();
+        em.emit(
+            "c09",
+            json!({"op": "bo_range", "arg": arg}),
+            imp,
+            vec![oracle("range_no_panic", ok, json!({"arg": arg}), "range:panic")],
+            vec!["range-token-soup".into()],
+        );
+    }
+}
+
 pub fn run(seed: u64, count: u64, corpus: Option<&str>, em: &mut Emitter) {
     if let Some(path) = corpus {
         if let Ok(f) = std::fs::File::open(path) {
@@ -413,6 +471,14 @@ pub fn run(seed: u64, count: u64, corpus: Option<&str>, em: &mut Emitter) {
                 let Ok(v) = serde_json::from_str::<Value>(&line) else { continue };
                 if let Some(t) = v.get("text").and_then(|t| t.as_str()) {
                     text_case(t, em, vec!["corpus-text".into()]);
+                } else if let Some(a) = v.get("range").and_then(|t| t.as_str()) {
+                    let imp = real_range(a);
+                    let want = v.get("git").and_then(|r| r.as_array()).map(|r| (r[0].as_u64().unwrap_or(0), r[1].as_u64().unwrap_or(0)));
+                    let got = imp.get("range").and_then(|r| r.as_array()).map(|r| (r[0].as_u64().unwrap_or(0), r[1].as_u64().unwrap_or(0)));
+                    let ok = imp.get("err").is_none() && got == want;
+                    em.emit("c09", json!({"op": "bo_range", "arg": a}), imp.clone(),
+                        vec![oracle("range_reads_like_git", ok, json!({"arg": a, "git": v.get("git"), "got": imp}), "range:numeric-form-differs-from-git")],
+                        vec!["corpus-range".into()]);
                 } else if let Some(p) = v.get("quoted").and_then(|t| t.as_str()) {
                     let imp = real_unquote(p);
                     let ok = imp.get("err").is_none();
@@ -424,7 +490,8 @@ pub fn run(seed: u64, count: u64, corpus: Option<&str>, em: &mut Emitter) {
     }
     let mut rng = Rng::new(seed);
     for i in 0..count {
-        match i % 5 {
+        match i % 6 {
+            5 => range_case(&mut rng, em),
             0 | 1 => structured_case(&mut rng, em),
             2 | 3 => {
                 let gs = gen_groups(&mut rng);
@@ -472,7 +539,10 @@ pub fn run_repo(_seed: u64, _count: u64, corpus: Option<&str>, em: &mut Emitter)
             la.sort();
             let mut keys: Vec<String> = a.prompt_records.keys().cloned().collect();
             keys.sort();
+            let mut lph: Vec<(u32, String)> = a.line_prompt_hashes.into_iter().collect();
+            lph.sort();
             Ok::<Value, String>(json!({"line_authors": la.iter().map(|(l, s)| json!([l, s])).collect::<Vec<_>>(),
+                                      "line_prompt_hashes": lph.iter().map(|(l, s)| json!([l, s])).collect::<Vec<_>>(),
                                       "prompt_keys": keys, "hunks": hunks_json(&a.blame_hunks)}))
         });
         let imp = match res {
